@@ -83,3 +83,41 @@ Proof.
   destruct d; cbn [negb andb]; [exact Hbody|]. destruct s as [h|]; [|exact Hbody].
   apply okt_ret. split; [reflexivity|intros x []].
 Qed.
+
+(** * the 2*height+2 bound: one Insert into a freshly loaded version, then a persist *)
+From Mast Require Import CostW.
+
+Lemma dcount_le_pcount : forall n : knode, dcount n <= pcount key val n.
+Proof.
+  induction n as [d s l0 es H0 Hes] using node_ind'. rewrite dcount_eq, pcount_eq. destruct (skip (Node d s l0 es)); [lia|].
+  assert (Hl : forall l : klink, PL key val (fun c => dcount c <= pcount key val c) l -> dcount_l l <= pcount_l key val l).
+  { intros l Hp. destruct l as [|c|h c|h]; cbn [dcount_l pcount_l PL] in *; try lia. }
+  pose proof (Hl l0 H0) as Hl0.
+  assert (Hs : list_sum (map (fun e => dcount_l (elink _ _ e)) es) <= psum key val es).
+  { unfold psum. clear -Hes Hl. induction Hes as [|e r He _ IH]; [cbn; lia|]. cbn [map]. unfold list_sum in *. cbn [fold_right]. pose proof (Hl _ He). lia. }
+  lia.
+Qed.
+
+Lemma sto_flat s kind h (c : knode) : sto s kind h c -> pcount key val c = 1.
+Proof.
+  intros H. inversion H as [h' l0 es _ H0 Hes _ _ _]; subst. rewrite pcount_eq.
+  assert (Hl : forall l : klink, sto_l s kind l -> pcount_l key val l = 0) by (intros l Hl; inversion Hl; reflexivity).
+  rewrite (Hl l0 H0). assert (Hs : psum key val es = 0).
+  { unfold psum. clear -Hes Hl. induction Hes as [|e r He _ IH]; [reflexivity|]. cbn [map]. unfold list_sum in *. cbn [fold_right]. rewrite (Hl _ He), IH. reflexivity. }
+  rewrite Hs. reflexivity.
+Qed.
+
+(** After a successful Insert (new key or new value) that leaves the height as it is, into a tree
+    whose root is the hash link of a stored version, persisting the new root node emits at most
+    2*height + 1 Store events - within the 2*height + 2 of the statement. *)
+Theorem insert_then_persist_writes s kind bf (m m' : kmast) k v t fuel f :
+  root_allh s kind m -> (exists h c, m_root _ _ m = LHash h c) ->
+  insert _ _ kcmp bytes_eqb (klayer bf) m k v = (t, Ok m') -> m_height _ _ m' = m_height _ _ m ->
+  forall n', m_root _ _ m' = LPtr n' ->
+  okt (store_node fuel f n') (fun ts _ => length (stored ts) <= 2 * m_height _ _ m + 1).
+Proof.
+  intros Ha (h & c & Er) Ei Hh n' Er' ts r E.
+  pose proof (insert_count key val kcmp bytes_eqb (sto s kind) (sto_hered s kind) (sto_flat s kind) (klayer bf) m k v Ha t m' Ei Hh) as Hc.
+  rewrite Er, Er' in Hc. cbn [pcount_l] in Hc.
+  destruct (store_node_count fuel f n' ts r E) as [Hlen _]. rewrite Hlen. pose proof (dcount_le_pcount n'). lia.
+Qed.
